@@ -74,7 +74,7 @@ async def run_case(ctx, rng, index):
                 if resp.get("errors") or not resp.get("data"):
                     ctx.violation("introspection-failed", repr(resp.get("errors"))[:400], case)
                     continue
-                problems = sdlgen.compare_schema(s, resp["data"]["__schema"])
+                problems = sdlgen.compare_schema(s, resp["data"]["__schema"], await sdlgen.engine_builtins())
                 for p in problems[:6]:
                     ctx.violation("introspection-differs", "mode=%s %s" % (mode, p), case)
                 # __type(name:) agrees with the types list, unknown names are null
